@@ -1,6 +1,6 @@
 SPECIFICATION Spec
-CONSTANTS KA = {"f3", "sub"}
-          KB = {"none", "f12"}
+CONSTANTS KA = {"sub"}
+          KB = {"f12"}
           KC = {"frep"}
 INVARIANTS TypeOK DagWellFormed AllBlocksVerify OnlyFromDag DupsOnlyIfRequested RootIsTerminal Sufficient RawExact ModelMinimal
 CHECK_DEADLOCK FALSE
